@@ -374,6 +374,49 @@ def run(ctx):
                 viol('past-end/wrong-exception:%s/%s' % (type(e).__name__, kind),
                      'reading past the end with %s raised %s instead of BitReadError' % (kind, type(e).__name__),
                      dict(kind=kind, left=left, need=need), exc=e)
+    # ------------------------------------------------------------- text that has no octet form
+    # A character field given as text with a character beyond U+00FF cannot be written as it is.  The statement leaves two
+    # outcomes: the value is refused ("values that do not fit are refused"), or it is accepted and then the field still has
+    # exactly its width (the writer advances by 8 x octets and the neighbours read back unchanged).
+    if ctx.shard == 0 or not ctx.quick:
+        for k in range(60 if ctx.quick else 200):
+            nb = rng.choice([1, 2, 3, 4, 5, 8, 9, 20])
+            ln = rng.randint(1, nb + 3)
+            chars = [rng.choice('abcXYZ \xe9') for _ in range(ln)]
+            chars[rng.randrange(min(ln, nb))] = rng.choice(['\u20ac', '\u0100', '\u4e2d', '\U0001f600', '\u0394'])
+            text = ''.join(chars)
+            lead = rng.randint(0, 7)
+            w = get_bit_writer()
+            if lead:
+                w.write_uint((1 << lead) - 1, lead)
+            case = dict(kind='unrepresentable-text', text=text.encode('unicode_escape').decode(), octets=nb, lead_bits=lead)
+            ctx.count('unrepresentable_texts')
+            try:
+                if k % 3 == 0:
+                    w.write(text, 'bytes', 8 * nb)
+                else:
+                    w.write_bytes(text, nb)
+            except Exception:
+                ctx.count('unrepresentable_texts_refused')
+                ctx.evaluated(('utext', case['text'], nb, lead), True)
+                continue
+            ctx.count('unrepresentable_texts_accepted')
+            ctx.evaluated(('utext', case['text'], nb, lead), True)
+            if w.get_pos() != lead + 8 * nb:
+                viol('bytes/unrepresentable-text/field-width', 'a bytes field of %d bits given %r moved the writer by %d bits'
+                     % (8 * nb, text, w.get_pos() - lead), case)
+                continue
+            try:
+                w.write_uint(0x2A, 7)
+                r = get_bit_reader(w.to_bytes())
+                a = r.read_uint(lead) if lead else None
+                b = r.read_bytes(nb)
+                c = r.read_uint(7)
+                if (lead and a != (1 << lead) - 1) or len(b) != nb or c != 0x2A or r.get_pos() != lead + 8 * nb + 7:
+                    viol('bytes/unrepresentable-text/neighbours', 'fields around an accepted text value read back as %r, %r, %r'
+                         % (a, b, c), case)
+            except Exception as e:
+                viol('bytes/unrepresentable-text/read-exception:%s' % type(e).__name__, 'reading back raised %r' % (e,), case, exc=e)
     # tape invariants are verdict-bearing for C19
     for b in tape.breaks[:3]:
         viol('tape/%s-position-invariant' % b.get('op'), 'bit tape invariant broken: %r' % (b,), b)
